@@ -44,7 +44,7 @@ CLAIMED = {
                  "strings incl. invalid UTF-8) run through chains of 1-3 verbs/DSL programs drawn from ~95 variants that read but never assign the "
                  "bystanders, under default/-S/-A/-O, batch sizes 1/2/500 and CSV/TSV/DKVP; every output record is traced by id and each bystander's "
                  "bytes and relative order compared with the input. Second sub-check pins the two documented exceptions (JSON output re-renders exactly "
-                 "the non-JSON numerals, value preserved; --ofmt re-renders exactly the floats as C printf)."),
+                 "the non-JSON numerals, value preserved; --ofmt re-renders exactly the floats as C printf)." " The documented-exceptions sub-check also covers YAML output: numerals that are legal JSON numbers keep their text, the others are re-rendered with the same value."),
         "note": "Trusted: Python csv as RFC-4180 codec, my IANA-TSV codec, vlib/model_num.infer for the exception sub-check. Verbs outside the pool are not covered.",
         "design_ref": "DESIGN.md section 4 C03",
     },
@@ -141,7 +141,7 @@ CLAIMED = {
                  "(counter,delta,rsum,from-first,shift; shift_lag/lead_n), fraction (-p,-c,-g), histogram, most/least-frequent, fill-down (-f,-a,--all), top, and "
                  "the DSL functions count/sum/mean/variance/stddev/meaneb/minlen/maxlen/distinct_count/mode/null_count/percentiles/sort_collection, at batch sizes "
                  "1/3/500. Exact for counts, sums, extrema, modes and order statistics; moments to 1e-9 on the variance scale and never negative/NaN; groups in "
-                 "first-appearance order with exact texts; counts add up."),
+                 "first-appearance order with exact texts; counts add up." " step: sliding-window averages slwin_m_n, EWMA with explicit and default weights and running products are recomputed per group with Fractions; records are matched by an index field because look-ahead windows reorder groups."),
         "note": ("Clean domain only (numeric values, |x| <= 1e4). What delta/shift give right after a record lacking the value field is undocumented and not "
                  "asserted. Percentile cases with p*n/100 within 1e-9 of an integer for fractional p are skipped. stats1 -s/-w, ewma, slwin, mad, skewness, kurtosis not yet covered."),
         "design_ref": "DESIGN.md section 4 C10",
@@ -181,7 +181,7 @@ CLAIMED = {
                  "sec2gmt (0-9 decimals), sec2gmtdate, nsec2gmt(date), strftime/strfntime (%Y %m %d %H %M %S %j %a %A %b %B %e %y %I %p %u %w %C %D %F %T %s %1S-%9S), "
                  "strftime_local/sec2localtime/sec2localdate/gmt2localtime == datetime/zoneinfo; gmt2sec, strptime, strpntime, strptime_local, localtime2sec round "
                  "trips (local: only unambiguous wall-clock times); sec2dhms/sec2hms layouts and all inverse pairs on ~1200 integers incl. negatives and floats; "
-                 "--tz / TZ / ENV[TZ] select the zone of *_local functions only; sec2gmt/sec2gmtdate verbs == functions, non-numeric unchanged."),
+                 "--tz / TZ / ENV[TZ] select the zone of *_local functions only; sec2gmt/sec2gmtdate verbs == functions, non-numeric unchanged." " Every time function whose help text says 'Leaves non-numbers as-is' (list read from the binary) is called in each arity on non-numeric first arguments; the sec2gmt/sec2gmtdate verbs are compared with the functions on non-numeric values too."),
         "note": "Both sides read /usr/share/zoneinfo. DST overlaps are not asserted (docs silent). datediff, localtime2gmt and %U %W %G %V are not yet covered. nanosecond functions only inside int64 nanoseconds (1678-2262).",
         "design_ref": "DESIGN.md section 4 C16",
     },
@@ -284,7 +284,7 @@ CLAIMED = {
                  "filter, print, dump, emit1, emit/emitp (by names, partial and full split), emitf; 0-3 user functions (plain, typed, recursive with an accumulator, argument-mutating) and a subroutine with early "
                  "return; deliberate stale reads of out-of-scope names, shadowing declarations, undeclared first assignments, copy-then-mutate sequences, absent right-hand sides, a small share of "
                  "type-violating assignments and re-declarations (documented fatal errors). Each program runs over 0-6 heterogeneous records as put / put -q / put -S; stdout is compared line by line with "
-                 "the reference interpreter's output; predicted fatals must give a non-zero exit."),
+                 "the reference interpreter's output; predicted fatals must give a non-zero exit." " Also run as filter / filter -x with a final bare boolean; higher-order functions apply/select/sort/fold/reduce/any/every with function literals that read enclosing locals; comma print, printn, lashed emit."),
         "note": ("Underdetermined by the documentation and therefore not generated or not judged (counted in evidence under excluded): the name typeof gives booleans (bool/boolean), re-assignment of a typed parameter "
                  "with another type, assignment to the key variables of a multi-key loop, modifying the collection a single-variable loop runs over, absent/error inside collection literals, comparisons "
                  "with absent, emit of maps with leaves at different depths, array index 0, string slices out of bounds. Known finding: fatal errors inside a user-defined function's body become an (error) "
